@@ -45,6 +45,7 @@ def registry():
     from pySDC.implementations.sweeper_classes.explicit import explicit
     from pySDC.implementations.sweeper_classes.multi_implicit import multi_implicit
     from pySDC.implementations.sweeper_classes import Runge_Kutta as RK
+    from pySDC.implementations.sweeper_classes.ParaDiagSweepers import QDiagonalization, QDiagonalizationIMEX
     from pySDC.implementations.transfer_classes.TransferMesh import mesh_to_mesh
     from pySDC.implementations.transfer_classes.TransferMesh_FFT import mesh_to_mesh_fft
     from pySDC.implementations.transfer_classes.TransferMesh_NoCoarse import mesh_to_mesh as mesh_to_mesh_nocoarse
@@ -565,7 +566,12 @@ def build(sc, ctx, extra_hooks=(), counting=False, plain=False, shared=None):
         if not shared:
             shared.extend([cparams, desc])
         cparams, desc = shared
-    ctrl = controller_nonMPI(cfg['P'], cparams, desc)
+    if cfg.get('controller_class') == 'ParaDiag':
+        from pySDC.implementations.controller_classes.controller_ParaDiag_nonMPI import controller_ParaDiag_nonMPI
+
+        ctrl = controller_ParaDiag_nonMPI(cfg['P'], cparams, desc)
+    else:
+        ctrl = controller_nonMPI(cfg['P'], cparams, desc)
     logging.getLogger().handlers.clear()
     ctx.ctrl = ctrl
     ctx.desc = desc
@@ -576,8 +582,9 @@ def build(sc, ctx, extra_hooks=(), counting=False, plain=False, shared=None):
 
 def instrument(ctrl, ctx):
     """Observation-only wrappers on the controller instance."""
-    orig_pfasst, orig_restart = ctrl.pfasst, ctrl.restart_block
-    orig_send, orig_recv = ctrl.send_full, ctrl.recv_full
+    paradiag = not hasattr(ctrl, 'pfasst')
+    orig_pfasst, orig_restart = (ctrl.ParaDiag if paradiag else ctrl.pfasst), ctrl.restart_block
+    orig_send, orig_recv = getattr(ctrl, 'send_full', None), getattr(ctrl, 'recv_full', None)
 
     def pfasst(MS_active):
         stages = sorted({S.status.stage for S in MS_active if S.status.stage != 'DONE'})
@@ -635,7 +642,11 @@ def instrument(ctrl, ctx):
         )
         return r
 
-    ctrl.pfasst, ctrl.restart_block, ctrl.send_full, ctrl.recv_full = pfasst, restart_block, send_full, recv_full
+    ctrl.restart_block = restart_block
+    if paradiag:
+        ctrl.ParaDiag = pfasst
+    else:
+        ctrl.pfasst, ctrl.send_full, ctrl.recv_full = pfasst, send_full, recv_full
 
 
 def initial_value(ctrl, spec, t0):
